@@ -30,6 +30,35 @@ def _dyadic_generator(num_items, total_budget):
     return DyadicGenerator(num_items, total_budget)
 
 
+def _ulp_generator(num_items, total_budget):
+    """Custom generator for comparisons decided by ONE unit in the last place: the weights are the dyadic numbers 1/2, 1/4,
+    1/8, their float32 neighbours just above and just below, and 3/8, in a key-dependent order.  With a dyadic budget the
+    remaining budget regularly equals one of them exactly, so that an item one ulp too heavy (illegal) and an item one ulp
+    lighter (legal) are both on offer while other items still fit."""
+    import jax
+    import jax.numpy as jnp
+
+    from jumanji.environments.packing.knapsack.generator import Generator, RandomGenerator
+
+    f = np.float32
+    base = [f(0.5), np.nextafter(f(0.5), f(1)), np.nextafter(f(0.5), f(0)), f(0.25), np.nextafter(f(0.25), f(1)),
+            np.nextafter(f(0.25), f(0)), f(0.125), np.nextafter(f(0.125), f(1)), f(0.375), f(0.125)]
+    pool = np.asarray((base * (num_items // len(base) + 1))[:num_items], dtype=np.float32)
+
+    class UlpGenerator(Generator):
+        def __call__(self, key):
+            from harness import inject
+
+            key, pkey, vkey = jax.random.split(key, 3)
+            weights = jax.random.permutation(pkey, jnp.asarray(pool))
+            values = jax.random.randint(vkey, (self.num_items,), 1, 64).astype(jnp.float32) / 64.0
+            return inject.state_like(RandomGenerator(self.num_items, self.total_budget)(key), weights=weights, values=values,
+                                     packed_items=jnp.zeros(self.num_items, dtype=bool),
+                                     remaining_budget=jnp.array(self.total_budget, float), key=key)
+
+    return UlpGenerator(num_items, total_budget)
+
+
 def _jitter_generator(num_items, total_budget):
     """Custom generator that provokes near-ties of budget against weight: weights and values are
     k/16 + j * 2^-24 (k = 0..15, j = -3..3, clipped at 0).  With a budget that is a multiple of 1/16 every
@@ -97,6 +126,9 @@ class Adapter(EnvAdapter):
                 _c("d3_b1_sparse", "dyadic", 3, 1.0, "sparse", 20, policies=pol4),
                 _c("d3_b0_dense", "dyadic", 3, 0.0, "dense", 12, policies=pol4),  # only weight-0 items fit
                 _c("d4_b0p25_dense", "dyadic", 4, 0.25, "dense", 16, policies=pol4),
+                # comparisons decided by one unit in the last place (items one ulp too heavy / just light enough)
+                _c("ulp8_b1_dense", "ulp", 8, 1.0, "dense", 12, policies=pol4),
+                _c("ulp10_b1_sparse", "ulp", 10, 1.0, "sparse", 8, policies=pol4),
             ]
         out = []
         for gen in ("uniform", "dyadic"):
@@ -112,6 +144,8 @@ class Adapter(EnvAdapter):
         out += [_c("u1_b0p5_dense", "uniform", 1, 0.5, "dense", 12, policies=pol4), _c("u2_b0p6_sparse", "uniform", 2, 0.6, "sparse", 12, policies=pol4),
                 _c("u50_b2_int_dense", "uniform", 50, 2, "dense", 4, policies=pol4, probe_every=3),      # integer-typed budget
                 _c("u130_b5_sparse", "uniform", 130, 5.0, "sparse", 3, policies=pol4, probe_every=13, probe_cap=40)]  # > 127 items
+        out += [_c("ulp8_b1_dense", "ulp", 8, 1.0, "dense", 60, policies=pol4), _c("ulp10_b1_sparse", "ulp", 10, 1.0, "sparse", 60, policies=pol4),
+                _c("ulp10_b0p75_dense", "ulp", 10, 0.75, "dense", 40, policies=pol4)]
         for c in out:       # the registered default is built by the library's own no-argument constructor
             if c["id"] == "u50_b12p5_dense":
                 c["default_ctor"] = True
@@ -124,7 +158,8 @@ class Adapter(EnvAdapter):
         from jumanji.environments.packing.knapsack.reward import DenseReward, SparseReward
 
         n, b = ctor["num_items"], ctor["total_budget"]
-        gen = {"uniform": RandomGenerator, "dyadic": _dyadic_generator, "jitter": _jitter_generator}[ctor["generator"]](n, b)
+        gen = {"uniform": RandomGenerator, "dyadic": _dyadic_generator, "jitter": _jitter_generator,
+               "ulp": _ulp_generator}[ctor["generator"]](n, b)
         return Knapsack(generator=gen, reward_fn=DenseReward() if rew == "dense" else SparseReward())
 
     def make(self, cfg):
